@@ -469,6 +469,12 @@ def b_str(eng, v=""):
         f, _ = v.cls.lookup("__str__")
         if f is not None:
             return eng.call(VBound(f, v), [], {})
+        args = v.fields.get("args")
+        if isinstance(args, tuple) and any(c.name == "BaseException" for c in v.cls.mro()):
+            if len(args) == 0:
+                return ""
+            if len(args) == 1:
+                return ops.to_str(eng, args[0])
     return ops.to_str(eng, v)
 
 
